@@ -21,6 +21,7 @@ import Rpki.Proofs.CrlEncLemmas
 import Rpki.Proofs.CmsEncLemmas
 import Rpki.Proofs.IdEncLemmas
 import Rpki.Proofs.SigMsgEncLemmas
+import Rpki.Proofs.CsrEncLemmas
 namespace Rpki.Props.C05
 set_option autoImplicit false
 open Rpki.Der
@@ -356,5 +357,55 @@ theorem exIdCert_wf : IdEnc.WF exIdCert where
 example : SigMsgDer.decodeIdCert (IdEnc.encodeIdCert exIdCert [9]) = some (IdEnc.readBack exIdCert (IdEnc.encodeTbsId exIdCert) [9]) := by
   have := idcert_roundtrip exIdCert exIdCert_wf (forest_cn [65]) (forest_cn [66]) [9] []
   rwa [List.append_nil] at this
+
+/-! ### certification requests -/
+
+/-- **`RpkiCaCsr::decode` reads back what `Csr::construct_rpki_ca` writes**: subject, key, basic constraints
+(cA), key usage (CA), the two or three URIs of the subject information access, the signature. -/
+theorem csr_roundtrip (subject : Bytes) (alg : CertDer.KeyAlg) (unused : Nat) (bits repo mft : Bytes) (notify : Option Bytes)
+    (h : CsrEnc.WF subject unused bits repo mft notify) (hs : CertDer.Forest subject) (signature rest : Bytes) :
+    CsrDer.decodeCsr false (CsrEnc.encodeCsr subject alg unused bits repo mft notify signature ++ rest) =
+      some (CsrEnc.readBack subject alg unused bits repo mft notify
+        (CsrEnc.encodeContent subject alg unused bits repo mft notify) signature) :=
+  CsrEnc.decodeCsr_encodeCsr subject alg unused bits repo mft notify h hs signature rest
+
+/-- non-vacuity: a request for `rsync://h/m/` and `rsync://h/m/a.mft` -/
+example : CsrEnc.WF (exName 66) 0 [1, 2, 3] [114, 115, 121, 110, 99, 58, 47, 47, 104, 47, 109, 47]
+    [114, 115, 121, 110, 99, 58, 47, 47, 104, 47, 109, 47, 97, 46, 109, 102, 116] none where
+  subject := CertEnc.nameOk_cn [66]
+  key := by decide
+  sia := { repo := by intro u h; injection h with h; subst h; decide
+           mft := by intro u h; injection h with h; subst h; decide
+           so := by intro u h; cases h
+           ntf := by intro u h; cases h }
+
+/-! ### re-encoding what was read
+
+The readers return the written fields plus what they were given (octets, signature, derived instants); the
+writers look at none of those, so writing the decoded value again gives the same octets. -/
+
+theorem crl_reencode (d : CrlDer.CrlD) (signature : Bytes) :
+    CrlEnc.encodeCrl { d with tbs := CrlEnc.encodeTbsCrl d, signature := signature } signature = CrlEnc.encodeCrl d signature := rfl
+
+theorem idcert_reencode (d : SigMsgDer.IdCertD) (signature : Bytes) :
+    IdEnc.encodeIdCert (IdEnc.readBack d (IdEnc.encodeTbsId d) signature) signature = IdEnc.encodeIdCert d signature := rfl
+
+theorem msg_crl_reencode (d : SigMsgDer.MsgCrlD) (signature : Bytes) :
+    SigMsgEnc.encodeMsgCrl { d with innerParam := true, outerParam := true, tbs := SigMsgEnc.encodeTbsMsgCrl d, signature := signature } signature =
+      SigMsgEnc.encodeMsgCrl d signature := rfl
+
+theorem cert_reencode (d : CertDer.Decoded) (signature : Bytes) :
+    CertEnc.encodeCert (CertEnc.readBack d true signature) signature = CertEnc.encodeCert d signature := rfl
+
+/-- so decoding, writing and decoding again is the same as decoding once (certificates) -/
+theorem cert_decode_encode_decode (d : CertDer.Decoded) (h : CertEnc.WF d) (hi : CertDer.Forest d.issuer)
+    (hs : CertDer.Forest d.subject) (signature : Bytes) :
+    (CertDer.decodeCert (CertEnc.encodeCert d signature)).map (fun d' => CertEnc.encodeCert d' d'.signature) =
+      some (CertEnc.encodeCert d signature) := by
+  have := cert_roundtrip d h hi hs signature []
+  rw [List.append_nil] at this
+  unfold CertDer.decodeCert
+  rw [this]
+  rfl
 
 end Rpki.Props.C05
